@@ -72,7 +72,7 @@ func (w *slowWorld) RoundTrip(req *http.Request) (*http.Response, error) {
 		w.mu.Lock()
 		it, known := w.issued[tok]
 		if known && now.Sub(it) > w.life {
-			w.lateSends = append(w.lateSends, fmt.Sprintf("%s %s carried %s, %.2f s after it expired (the slow acquisition had returned %.2f s before)", req.Method, req.URL.Path, tok, (now.Sub(it) - w.life).Seconds(), now.Sub(w.slowDone).Seconds()))
+			w.lateSends = append(w.lateSends, fmt.Sprintf("%s %s carried %s, %.2f s after it expired (the slow acquisition had returned %.2f s before)", req.Method, req.URL.Path, tok, (now.Sub(it)-w.life).Seconds(), now.Sub(w.slowDone).Seconds()))
 		}
 		w.log = append(w.log, fmt.Sprintf("%s %s with %s (age %.2fs)", req.Method, req.URL.Path, tok, now.Sub(it).Seconds()))
 		w.mu.Unlock()
